@@ -21,11 +21,11 @@ func init() {
 			"(DOM-lazy) abstract fields are not expanded over possible types at plan time: nothing reachable from PlanQuery enumerates possible types, planMergedFieldChildren has no loop, abstractAlternative is called only from completePlannedAbstractValue with the runtime type it just resolved.",
 		NotDecided: "the actual exponent and constants; no step counts are measured.",
 	}
-	register(&core.Rule{Name: "C09/REC-fragments", Props: []string{"C09", "C19"}, Min: 7,
+	register(&core.Rule{Name: "C09/REC-fragments", Props: []string{"C09", "C19", "C02"}, Min: 7,
 		Doc: "every descent through a fragment name is cut by a visited set / memo marked before the descent", Run: recFragments})
 	register(&core.Rule{Name: "C19/REC-alloc", Props: []string{"C19", "C09"}, Min: 3,
 		Doc: "visited sets handed to fragment-dereferencing functions are not created inside a call-graph cycle", Run: recAlloc})
-	register(&core.Rule{Name: "C19/REC-memo", Props: []string{"C19", "C02"}, Min: 12,
+	register(&core.Rule{Name: "C19/REC-memo", Props: []string{"C19", "C02", "C07"}, Min: 12,
 		Doc: "memoised functions: full-key lookup first, hit returns, store on miss, memo allocated once; Has predicates sound", Run: recMemo})
 	register(&core.Rule{Name: "C19/DOM-lazy", Props: []string{"C19"}, Min: 3,
 		Doc: "no plan-time expansion over possible types", Run: recLazy})
